@@ -91,3 +91,49 @@ Example encode_deterministic_ex :
   let w := [repeat 7%N 320; repeat 9%N 64] in
   fst (exec w [d; f; d]) = fst (exec w [f; d; d]) /\ nth 0 (fst (exec w [d; f])) [] <> repeat 7%N 320.
 Proof. cbn zeta. split; [vm_compute; reflexivity|]. vm_compute. discriminate. Qed.
+
+(* ================================================================ *)
+(* ENCODERS ARE READ-ONLY IN EVERY ARGUMENT EXCEPT THE DESTINATION.
+   A call whose slice arguments live in the world too (a payload, an order list, option values, MACs: possibly
+   sharing one array, possibly directly behind one another, possibly aliasing each other): the model reads them
+   — [a_fn] may look at the whole world — and writes the destination array only. *)
+Record acall := { a_dst : nat; a_len : nat; a_fn : world -> slice -> res slice * bytes }.
+
+Definition astep (w : world) (c : acall) : world * res slice :=
+  let '(r, a) := a_fn c w (mkSlice (nth (a_dst c) w []) (a_len c)) in (upd (a_dst c) a w, r).
+
+Fixpoint aexec (w : world) (cs : list acall) : world :=
+  match cs with
+  | [] => w
+  | c :: r => aexec (fst (astep w c)) r
+  end.
+
+Theorem encode_args_unchanged (cs : list acall) : forall (w : world) (j : nat),
+  Forall (fun c => a_dst c <> j) cs -> nth j (aexec w cs) [] = nth j w [].
+Proof.
+  induction cs as [|c cs IH]; intros w j H; cbn [aexec]; [reflexivity|].
+  inversion H as [|? ? Hc Hr]; subst.
+  rewrite (IH _ j Hr). unfold astep.
+  destruct (a_fn c w (mkSlice (nth (a_dst c) w []) (a_len c))) as [r a]. cbn [fst].
+  apply nth_upd_other. exact Hc.
+Qed.
+
+(* e.g. EncodeDHCP4 with its order list and one option value taken from arrays of the world *)
+Definition dhcp4_acall dst l opcode mt yi (order_at val_at : nat) (code : N) : acall :=
+  {| a_dst := dst; a_len := l;
+     a_fn := fun w b => let r := encode_dhcp4 b opcode mt None [] yi None false [(code, nth val_at w [])] (nth order_at w []) [] in
+                        (r, buf_after b r) |}.
+
+Example encode_args_unchanged_ex :
+  let w := [repeat 7%N 320; [1; 3; 6]%N; [9; 8; 7; 6]%N] in
+  let c := dhcp4_acall 0 0 2 5 [192;168;0;9]%N 1 2 61 in
+  nth 1 (aexec w [c]) [] = [1; 3; 6]%N /\ nth 2 (aexec w [c]) [] = [9; 8; 7; 6]%N /\ nth 0 (aexec w [c]) [] <> nth 0 w [].
+Proof. cbn zeta. split; [reflexivity|]. split; [reflexivity|]. vm_compute. discriminate. Qed.
+
+(* EncodeEther with MAC arguments aliasing the destination (as found): a source MAC lying in b[0:6] is read after
+   the destination MAC has been written there, so the frame's source equals its destination *)
+Example ether_alias_src_in_header :
+  let b := mkSlice [1;2;3;4;5;6; 11;12;13;14;15;16; 0;0; 21;22;23;24;25;26]%N 0 in
+  exists r, encode_ether_aliased b 2048 0 6 14 6 = Ok r /\
+            ether_dst r = Ok [21;22;23;24;25;26]%N /\ ether_src r = Ok [21;22;23;24;25;26]%N.
+Proof. cbn zeta. eexists. split; [vm_compute; reflexivity|]. split; vm_compute; reflexivity. Qed.
